@@ -2,6 +2,7 @@
 import faulthandler
 import importlib
 import json
+import os
 import sys
 import traceback
 
@@ -9,6 +10,13 @@ import traceback
 def main():
     pid, tier, seed, spec_path, out_path = sys.argv[1:6]
     faulthandler.enable()
+    cov = None
+    if os.environ.get("VERIF_COVERAGE"):  # tools/coverage_report.py: which lines of demeter the workloads reach
+        import coverage
+
+        cov = coverage.Coverage(data_file=os.path.join(os.environ["VERIF_COVERAGE"], ".coverage"), data_suffix=True, branch=True,
+                                source=[os.path.join(os.environ.get("REPO_DIR", "/repo"), "demeter")])
+        cov.start()
     from . import env
 
     env.setup()
@@ -24,6 +32,9 @@ def main():
     except Exception:
         traceback.print_exc()
         sys.exit(2)
+    if cov is not None:
+        cov.stop()
+        cov.save()
     with open(out_path, "w") as fh:
         json.dump(mon.result(), fh, default=str)
 
